@@ -2,6 +2,12 @@
 //! `select!` resolves to the simulator's (crate `cbshim`, imported under the name
 //! `crossbeam-channel`). One `step` = one decision at the server's only
 //! blocking point: deliver a message, let the 1000 ms idle timer fire, or hang up.
+//!
+//! The shipped `main_loop` runs on a thread of its own, once, for the whole life of the
+//! simulated server — whatever it keeps in local variables (counters, backlogs) lives as
+//! long as it does in the real process. The thread is parked inside `select!` whenever the
+//! simulator runs and the simulator waits whenever the server runs: exactly one of the two
+//! executes at any time, and who does is decided by the simulator alone.
 
 #[allow(dead_code, unused_imports, clippy::all)]
 mod shipped {
@@ -19,45 +25,130 @@ use oal_client::lsp::state::GlobalState;
 use oal_client::lsp::{Folder, Workspace};
 use std::collections::HashMap;
 use std::panic::{catch_unwind, AssertUnwindSafe};
+use std::sync::mpsc;
 use url::Url;
 
 pub enum Step {
     Deliver(Message),
     Timeout,
     Disconnect,
+    /// nothing new happens: the server works off what is already queued
+    Flush,
 }
 
+/// What the server thread tells the simulator.
+enum Evt {
+    /// parked at `select!`; the state may be looked at until the next choice is sent
+    AtSelect(*const GlobalState),
+    /// `main_loop` is over (returned or panicked)
+    Ended(String),
+}
+// The pointer is only dereferenced by the simulator while the server thread is parked
+// inside the hook that sent it (see `Server::with_state`).
+unsafe impl Send for Evt {}
+
 pub struct Server {
-    pub state: GlobalState,
     pub client: Connection,
     pub death: Option<String>,
     pub steps: u64,
+    choice_tx: mpsc::Sender<SimChoice>,
+    evt_rx: mpsc::Receiver<Evt>,
+    /// valid while the server is parked (`death` is `None`)
+    state: *const GlobalState,
+    inbox: crossbeam_channel::Receiver<Message>,
+    thread: Option<std::thread::JoinHandle<()>>,
 }
 
 impl Server {
-    /// Mirrors the construction in the shipped `main()` after `initialize`.
+    /// Mirrors the construction in the shipped `main()` after `initialize`, then starts the
+    /// shipped loop and waits until it reaches its `select!` for the first time.
     pub fn new(folder_uris: &[Url]) -> Server {
         let (server_conn, client_conn) = Connection::memory();
-        let mut folders = HashMap::new();
-        for uri in folder_uris {
-            let f = lsp_types::WorkspaceFolder {
-                uri: uri.clone(),
-                name: "ws".into(),
-            };
-            if let Ok(folder) = Folder::new(f) {
-                folders.insert(uri.clone(), folder);
-            }
-        }
-        Server {
-            state: GlobalState {
-                conn: server_conn,
-                workspace: Workspace::default(),
-                folders,
-                is_stale: true,
-            },
+        let inbox = server_conn.receiver.clone();
+        let (choice_tx, choice_rx) = mpsc::channel::<SimChoice>();
+        let (evt_tx, evt_rx) = mpsc::channel::<Evt>();
+        let uris: Vec<Url> = folder_uris.to_vec();
+        let seed = crate::hashseed::next_child_seed();
+        let thread = std::thread::Builder::new()
+            .stack_size(256 << 20)
+            .spawn(move || {
+                crate::hashseed::set_thread_seed(seed);
+                let mut folders = HashMap::new();
+                for uri in uris {
+                    let f = lsp_types::WorkspaceFolder {
+                        uri: uri.clone(),
+                        name: "ws".into(),
+                    };
+                    if let Ok(folder) = Folder::new(f) {
+                        folders.insert(uri.clone(), folder);
+                    }
+                }
+                let mut state = GlobalState {
+                    conn: server_conn,
+                    workspace: Workspace::default(),
+                    folders,
+                    is_stale: true,
+                };
+                let tx = evt_tx.clone();
+                sim_set_hook(Some(Box::new(move |_timeout, st| {
+                    let ptr = st.and_then(|s| s.downcast_ref::<GlobalState>()).map(|s| s as *const GlobalState).unwrap_or(std::ptr::null());
+                    if tx.send(Evt::AtSelect(ptr)).is_err() {
+                        return SimChoice::Stop;
+                    }
+                    // parked: the simulator runs now
+                    choice_rx.recv().unwrap_or(SimChoice::Stop)
+                })));
+                let r = catch_unwind(AssertUnwindSafe(|| shipped::sim_main_loop(&mut state)));
+                sim_set_hook(None);
+                let end = match r {
+                    Err(p) if p.is::<SimStop>() => "stopped by the simulator".to_string(),
+                    Err(p) => format!("panic: {}", crate::hashseed::panic_message(&p)),
+                    Ok(Ok(())) => "main_loop returned Ok".to_string(),
+                    Ok(Err(e)) => format!("main_loop returned Err: {e:#}"),
+                };
+                let _ = evt_tx.send(Evt::Ended(end));
+            })
+            .expect("spawn server thread");
+        let mut s = Server {
             client: client_conn,
             death: None,
             steps: 0,
+            choice_tx,
+            evt_rx,
+            state: std::ptr::null(),
+            inbox,
+            thread: Some(thread),
+        };
+        s.wait_parked();
+        s
+    }
+
+    /// Blocks until the server is parked at `select!` with nothing left in its inbox (each
+    /// queued message costs one `Recv` decision), or has ended.
+    fn wait_parked(&mut self) {
+        loop {
+            match self.evt_rx.recv() {
+                Ok(Evt::AtSelect(p)) => {
+                    self.state = p;
+                    if self.inbox.is_empty() {
+                        return;
+                    }
+                    if self.choice_tx.send(SimChoice::Recv).is_err() {
+                        self.death = Some("server thread gone".into());
+                        return;
+                    }
+                }
+                Ok(Evt::Ended(d)) => {
+                    self.state = std::ptr::null();
+                    self.death = Some(d);
+                    return;
+                }
+                Err(_) => {
+                    self.state = std::ptr::null();
+                    self.death = Some("server thread gone".into());
+                    return;
+                }
+            }
         }
     }
 
@@ -65,31 +156,72 @@ impl Server {
         self.death.is_none()
     }
 
-    /// Runs the real `main_loop` for exactly one decision and pauses it at the next
-    /// `select!`. Returns everything the server sent meanwhile.
+    /// Looks at the server's state while it is parked. `None` once it has ended.
+    pub fn with_state<R>(&self, f: impl FnOnce(&GlobalState) -> R) -> Option<R> {
+        if self.death.is_some() || self.state.is_null() {
+            return None;
+        }
+        // SAFETY: the pointer was derived from the `&mut GlobalState` that `main_loop` lent to
+        // `select!` → `sim_decide_with` → the hook, which is blocked in `choice_rx.recv()` on
+        // the server thread until `step` sends the next choice; the two threads are ordered
+        // by the channels, and nothing else touches the state meanwhile.
+        Some(f(unsafe { &*self.state }))
+    }
+
+    pub fn is_stale(&self) -> bool {
+        self.with_state(|s| s.is_stale).unwrap_or(false)
+    }
+
+    /// Puts a message into the server's inbox without letting the server run: it is worked
+    /// off, in order, together with whatever the next `step` delivers (a client that does
+    /// not wait for an answer before it sends more).
+    pub fn enqueue(&mut self, m: Message) {
+        if self.death.is_none() {
+            self.client.sender.send(m).expect("memory channel");
+        }
+    }
+
+    /// Lets the real `main_loop` run for one decision — plus one `Recv` per message that is
+    /// still queued — until it is parked at `select!` again with an empty inbox. Returns
+    /// everything the server sent meanwhile.
     pub fn step(&mut self, step: Step) -> Vec<Message> {
         if self.death.is_some() {
             return Vec::new();
         }
         self.steps += 1;
-        let mut first = Some(match step {
+        let first = match step {
             Step::Deliver(m) => {
                 self.client.sender.send(m).expect("memory channel");
-                SimChoice::Recv
+                Some(SimChoice::Recv)
             }
-            Step::Timeout => SimChoice::Timeout,
-            Step::Disconnect => SimChoice::Disconnected,
-        });
-        sim_set_hook(Some(Box::new(move |_timeout| first.take().unwrap_or(SimChoice::Stop))));
-        let state = &mut self.state;
-        let r = catch_unwind(AssertUnwindSafe(|| shipped::sim_main_loop(state)));
-        sim_set_hook(None);
-        match r {
-            Err(p) if p.is::<SimStop>() => {}
-            Err(p) => self.death = Some(format!("panic: {}", crate::hashseed::panic_message(&p))),
-            Ok(Ok(())) => self.death = Some("main_loop returned Ok".into()),
-            Ok(Err(e)) => self.death = Some(format!("main_loop returned Err: {e:#}")),
+            Step::Timeout => Some(SimChoice::Timeout),
+            Step::Disconnect => Some(SimChoice::Disconnected),
+            Step::Flush => {
+                if self.inbox.is_empty() {
+                    None
+                } else {
+                    Some(SimChoice::Recv)
+                }
+            }
+        };
+        if let Some(c) = first {
+            if self.choice_tx.send(c).is_err() {
+                self.death = Some("server thread gone".into());
+            } else {
+                self.wait_parked();
+            }
         }
         self.client.receiver.try_iter().collect()
+    }
+}
+
+impl Drop for Server {
+    fn drop(&mut self) {
+        if self.death.is_none() {
+            let _ = self.choice_tx.send(SimChoice::Stop);
+        }
+        if let Some(t) = self.thread.take() {
+            let _ = t.join();
+        }
     }
 }
